@@ -121,7 +121,8 @@ impl GenOpts {
 }
 
 pub fn rand_dropout(rng: &mut Rng, o: &GenOpts) -> Option<f32> {
-    if o.dropout && rng.coin() { Some(*rng.pick(&[0.3f32, 0.5, 0.9])) } else { None }
+    // ordinary rates, and now and then the degenerate ones (nothing dropped / everything dropped)
+    if o.dropout && rng.coin() { Some(if rng.chance(1, 5) { *rng.pick(&[1.0f32, 0.0, 1.5]) } else { *rng.pick(&[0.3f32, 0.5, 0.9]) }) } else { None }
 }
 
 pub fn rand_dense(rng: &mut Rng, o: &GenOpts) -> Simple {
